@@ -736,7 +736,7 @@ impl<'a> Interp<'a> {
         match r {
             Err(_) => {
                 self.inconclusive = Some(format!(
-                    "watchdog: operation {} neither completed nor parked within 20 s at step {}",
+                    "watchdog: operation {} neither completed nor parked within 60 s at step {}",
                     op, self.step
                 ));
             }
